@@ -198,10 +198,17 @@ pub fn r_recipe(r: &ScalableRecipe, with_meta: bool) -> String {
 }
 
 pub fn r_analysis(res: &cooklang::RecipeResult, has_front_matter: bool) -> String {
-    let ds: Vec<String> = res.report().iter().filter(|d| !external_kind(&diag_kind(d))).map(r_diag_full).collect();
+    let ds: Vec<String> = res.report().iter().filter(|d| !(has_front_matter && external_kind(&diag_kind(d)))).map(r_diag_full).collect();
     let dstr = format!("diags=[{}]", ds.join(" "));
     match res.output() {
         None => format!("NOOUT {dstr}"),
-        Some(r) => format!("OUT {} {dstr}", r_recipe(r, !has_front_matter)),
+        Some(r) => {
+            let servings = if has_front_matter { String::new() } else {
+                // `data` is crate-private: read it from the serde image
+                let v = serde_json::to_value(r).ok().and_then(|v| v.get("data").cloned()).unwrap_or(serde_json::Value::Null);
+                format!(" servings={}", match v { serde_json::Value::Array(a) => format!("[{}]", a.iter().map(|x| x.to_string()).collect::<Vec<_>>().join(", ")), _ => "-".into() })
+            };
+            format!("OUT {}{servings} {dstr}", r_recipe(r, !has_front_matter))
+        }
     }
 }
